@@ -31,7 +31,7 @@ from lib import projects as PJ
 from lib import crawl
 
 SOURCES = {
-    "pkg": ('"""Package pkg.\n\nIntro\n=====\n\nSee L{pkg.a.C} and L{solo.helper}.\n\nDetails\n=======\n\nMore.\n"""\n', True),
+    "pkg": ('"""Package pkg.\n\nIntro\n=====\n\nSee L{pkg.a.C} and L{solo.helper}.\n\nDetails\n=======\n\nMore.\n"""\nfrom pkg.c import *\n__all__ = ["P", "Q", "R"]\n', True),
     "pkg.a": ('"""Module a."""\n__docformat__ = "restructuredtext"\nimport enum\nclass C:\n    """Class C.\n\n    :newfield custom: Custom, Customs\n    :custom: one\n    :custom: two\n    :ivar v: the v\n    :cvar w: the w\n    """\n    w = 1\n'
               '    def __init__(self):\n        self.v = 2\n    def m(self, a, b=1):\n        """Method m, see `D` and `pkg.b.f`.\n\n        :param a: A.\n        :param b: B.\n        :raises ValueError: never\n        :raises KeyError: never\n        """\n'
               'class D(C):\n    """Class D."""\n    def m(self, a, b=2): pass\nclass E(C):\n    """Class E."""\nclass F(D, E):\n    """Class F."""\nclass Colour(enum.Enum):\n    """An enum."""\n    RED = 1\n    GREEN = 2\n'
@@ -41,10 +41,11 @@ SOURCES = {
     "pkg.z": ('"""Module z: zope interfaces."""\nfrom zope.interface import Interface, implementer\nclass IRead(Interface):\n    """Read side."""\n    def close():\n        """Stop reading."""\n'
               'class IWrite(Interface):\n    """Write side."""\n    def close():\n        """Stop writing."""\nclass IMon(Interface):\n    """Monitored."""\n    def close():\n        """Emit statistics."""\n'
               '@implementer(IRead, IWrite, IMon)\nclass BaseT:\n    """Base transport."""\n    def close(self):\n        pass\nclass Tcp(BaseT):\n    """Tcp transport: inherits its interfaces."""\n    def close(self):\n        pass\n', False),
+    "pkg.c": ('"""Module c: no __all__; its public names are star-imported and re-exported by the package."""\nclass P:\n    """P"""\nclass Q(P):\n    """Q"""\ndef R():\n    """R"""\n', False),
     "solo": ('"""Root module solo.\n\n@see: L{pkg}\n@author: A\n@author: B\n"""\ndef helper():\n    """Helper; B{bold} I{it}.\n\n    Heading\n    =======\n\n    Text.\n    """\nclass K:\n    """K."""\n    def helper(self): pass\n', False),
     "tool": ('"""Root module tool."""\nfrom pkg.a import *\nfrom pkg.b import *\nclass T(C):\n    """T, subclass across roots."""\n', False),
 }
-NROOTS = [["pkg", "pkg.a", "pkg.b", "pkg.z", "solo", "tool"], ["pkg", "pkg.a", "pkg.b", "pkg.z", "solo"], ["pkg", "pkg.a", "pkg.b", "pkg.z"]]
+NROOTS = [["pkg", "pkg.a", "pkg.b", "pkg.c", "pkg.z", "solo", "tool"], ["pkg", "pkg.a", "pkg.b", "pkg.c", "pkg.z", "solo"], ["pkg", "pkg.a", "pkg.b", "pkg.c", "pkg.z"]]
 THEMES = ["classic", "readthedocs"]
 MAXORDER = tier(6, 24)
 
@@ -144,7 +145,7 @@ UNBLOCK = ["open", "os.mkdir", "os.symlink", "os.remove", "os.rmdir", "shutil.rm
     parts=lambda: [[r, t] for r in range(3) for t in range(2)], timeout=(300, 900), cls="F", tracing="concrete-after-choice", twin="first", unblock=UNBLOCK,
     code=["every module of pydoctor (loaded from source with set constructions rewritten)", "pydoctor.templatewriter.summary.IndexPage.rootkind", "pydoctor.templatewriter.search", "pydoctor.model.System (parse_errors, once_msgs)",
           "pydoctor.astutils (names)", "pydoctor.epydoc.markup.epytext (_SYMBOLS, _section_slugs)", "pydoctor.epydoc.markup.restructuredtext (_newfields)", "pydoctor.templatewriter.writer.TemplateWriter", "pydoctor.sphinx.SphinxInventoryWriter"],
-    bounds={"quick": "a project of 3 / 2 / 1 roots of mixed kinds (package + modules; epytext and reST docstrings with sections, custom fields, cross-root subclasses, star imports, unresolvable links, zope interfaces with same-named members inherited through a base class), 2 themes, project name given or not, "
+    bounds={"quick": "a project of 3 / 2 / 1 roots of mixed kinds (package + modules; epytext and reST docstrings with sections, custom fields, cross-root subclasses, star imports, unresolvable links, zope interfaces with same-named members inherited through a base class, names star-imported from a module without __all__ and re-exported), 2 themes, project name given or not, "
                      "6 set-order indices (every permutation of every set of <= 3 members; 4 rearrangements of larger sets): full output trees compared byte for byte",
             "thorough": "24 set-order indices (every permutation of every set of <= 4 members)"},
     stubs=["set constructions in pydoctor's source (set(), frozenset(), {..}, set comprehensions, defaultdict(set)) build lib.setorder.PermSet / PermFrozenSet: real sets whose __iter__ and pop follow the chosen permutation"],
